@@ -621,7 +621,8 @@ def coverage(tier, seed, agg):
         "rule": "BFS over operation sequences on a real Charge; states merged on (reported array, ordered frame rows, "
                 "array after removing all clusters) of the object and of its read-free twin; every transition executed "
                 "on the implementation and compared with an exact-rational accumulator; every distinct frame met in the "
-                "'jit' shards re-executed on the compiled kernel with bounds checking",
+                "'jit' shards re-executed on the compiled kernel with bounds checking; `states` is the sum over the "
+                "shards (sub-alphabets) of their distinct states",
     }
     for k in ("jit_frames", "jit_distinct_arrays", "outside_adds_not_credited", "read_forks",
               "removals_to_empty_frame", "array_folded_into_clusters", "resets", "rejected_adds",
